@@ -73,7 +73,11 @@ class PlaceholderSubstitutor(CopyMapper):
 
     def __init__(self, substitutions: Mapping[str, Array]) -> None:
         # Ignoring function cache, since we don't support functions anyway
-        super().__init__()
+        #
+        # A substituted-in binding may be a placeholder that is equal to (has the
+        # same name, shape and dtype as) the parameter it replaces, but is not the
+        # same object; that is a legitimate result, not a mapper-created duplicate.
+        super().__init__(err_on_created_duplicate=False)
         self.substitutions = substitutions
 
     def map_placeholder(self, expr: Placeholder) -> Array:
